@@ -12,3 +12,11 @@ package assertiontree
 //@ func (*RootAssertionNode).collectAccessedFieldPaths
 //@ prop C17
 //@ ghost owns seen
+
+//@ -- C16: propagateRichChecks may write into the slice it is given (per-function data of the calling goroutine)
+//@ func propagateRichChecks
+//@ prop C16
+//@ ghost owns richCheckBlocks
+//@ func genInitialRichCheckEffects
+//@ prop C16
+//@ ghost returns-owned
